@@ -399,6 +399,8 @@ def mapping_to_items(mapping: LineMapping, is_linetable: bool) -> CollapsedItems
         last_section_line_number = 0
         # This is the number of line numbers the section moved from the last
         section_line_number_diff = None
+        # Stays none if there is no bytecode
+        bytecode_offset = None
         for bytecode_offset, line_number in mapping.offset_to_line.items():
             # On first bytecode, this will be none
             if section_bytecode_offset is None:
